@@ -134,10 +134,27 @@ def search(ctx):
     n = ctx.n(80, 1000)
     for i in range(n):
         kind = int(rng.integers(0, 5))
+        aligned = (i % 6 == 1)
+        if aligned:
+            kind = 2
         sc = [T.rand_sphere, T.rand_layered, T.rand_spheres, T.rand_spheroid, T.rand_cylinder][kind](rng)
         if rng.random() < 0.3 and kind == 0:
             sc = T.rand_sphere(rng, zmin=-10, zmax=-3, absorbing=False)   # below the focal plane (lens theories)
+        if aligned:
+            # spheres lined up along the lab x or y axis, or stacked exactly above each other (exact zeros in the in-plane offsets)
+            c0 = np.ravel(sc.center)
+            step = float(rng.uniform(0.9, 1.6))
+            ax = int(rng.integers(0, 3))
+            nsp = int(rng.integers(2, 4))
+            mem = []
+            for j in range(nsp):
+                c = [float(c0[0]), float(c0[1]), float(c0[2])]
+                c[ax] = c[ax] + (j - (nsp - 1) / 2) * step * (-1 if rng.random() < 0.5 else 1) if ax < 2 else c[ax] + j * step
+                mem.append(Sphere(n=float(rng.uniform(1.45, 1.65)), r=float(rng.uniform(0.25, 0.4)), center=tuple(c)))
+            sc = Spheres(mem, warn=False)
         ths = T.theories_for(sc, rng, lens=True)
+        if aligned:
+            ths = [t for t in ths if t[0] == "Multisphere"] or ths
         if np.ravel(sc.center)[2] < 0:
             ths = [t for t in ths if "Lens" in t[0]] or ths
         name, mk = ths[rng.integers(0, len(ths))]
@@ -149,7 +166,7 @@ def search(ctx):
             c0 = np.ravel(sc.center)
             x, y = c0[0] + rng.uniform(-1.0, 1.0, size=m), c0[1] + rng.uniform(-1.0, 1.0, size=m)
             mk = lambda: Lens(0.8, Mie(False, False), quad_npts_theta=80, quad_npts_phi=80)
-        if kind in (2, 3, 4) and i % 3 == 0:
+        if kind in (2, 3, 4) and i % 3 == 0 and not aligned:
             # the lens wrapper around a theory whose scattering matrix depends on the azimuth (cluster, tilted spheroid/cylinder):
             # compact particle near the axis, detector points close to it, fine quadrature (the property speaks of the converged one)
             if kind == 2:
@@ -165,7 +182,7 @@ def search(ctx):
         det = detector_points(x=x, y=y, z=0.0)
         pol0 = (1.0, 0.0) if name == "Tmatrix" else T.rand_pol(rng)
         info = dict(theory=name, scatterer=repr(sc), pol=list(pol0), points=[x.tolist(), y.tolist()])
-        tol = {"Lens(Mie)": 2e-5, "Lens(Multisphere)": 1e-4, "Lens(Tmatrix)": 1e-4, "MieLens": 1e-9, "AberratedMieLens": 1e-9, "Multisphere": 1e-7, "Tmatrix": 1e-6}.get(name, 1e-11)
+        tol = {"Lens(Mie)": 2e-5, "Lens(Multisphere)": 1e-4, "Lens(Tmatrix)": 1e-4, "MieLens": 1e-9, "AberratedMieLens": 1e-9, "Multisphere": 1e-7, "Tmatrix": 5e-6}.get(name, 1e-11)     # ampld nudges its angles by 1e-7: rotation by pi reproduces to ~1.4e-6
         try:
             th = mk()
             h0 = calc_holo(det, sc, illum_polarization=pol0, theory=th, **OPT).values
@@ -221,6 +238,9 @@ def search(ctx):
                                           dict(kind="mirror", axis=label, mpol=list(polm), **info))
         except Exception as ex:
             import traceback
+            if type(ex).__name__ == "MultisphereFailure":
+                ctx.notes.append("a generated cluster did not converge in the multi-sphere solver (a Python exception, not a wrong value): skipped")
+                continue
             ctx.violation("C05:raises:%s:%s" % (name, type(ex).__name__), "%s raised %r" % (name, ex), dict(kind="raises", tb=traceback.format_exc()[-600:], **info))
     ctx.sample(dict(kind="search", relations=["shift (arbitrary with points, whole-pixel with grids)", "rotation by a generic angle about a random vertical axis",
                                               "mirror symmetry of a sphere's hologram for x/y polarisation"], theories="all incl. lens theories, particle above and below focus"))
